@@ -347,6 +347,103 @@ theorem crash_start_ok_import {cfg : Cfg} {G : Block} (E : StaticOK cfg.st G) (h
   rw [hbusy] at h1
   exact (JI_crash E h1).2.2
 
+theorem skRunT_append (cfg : Cfg) (k : SkelT) (l₁ l₂ : List EvT) :
+    skRunT cfg k (l₁ ++ l₂) = skRunT cfg (skRunT cfg k l₁) l₂ := by
+  unfold skRunT; rw [List.foldl_append]
+
+/-- the hypotheses on a history split along any cut -/
+theorem runOKT_append {cfg : Cfg} {G : Block} : ∀ (l₁ l₂ : List EvT) (k : SkelT),
+    RunOKT cfg G k (l₁ ++ l₂) ↔ RunOKT cfg G k l₁ ∧ RunOKT cfg G (skRunT cfg k l₁) l₂ := by
+  intro l₁
+  induction l₁ with
+  | nil => intro l₂ k; exact ⟨fun h => ⟨trivial, h⟩, fun h => h.2⟩
+  | cons e l ih =>
+    intro l₂ k
+    show StepOKT cfg G k e ∧ RunOKT cfg G (skStepT cfg k e) (l ++ l₂) ↔
+      (StepOKT cfg G k e ∧ RunOKT cfg G (skStepT cfg k e) l) ∧ RunOKT cfg G (skRunT cfg (skStepT cfg k e) l) l₂
+    rw [ih l₂ (skStepT cfg k e)]
+    exact ⟨fun h => ⟨⟨h.1, h.2.1⟩, h.2.2⟩, fun h => ⟨h.1.1, h.1.2, h.2⟩⟩
+
+theorem guardT_append {cfg : Cfg} {cr : Bool} : ∀ (l₁ l₂ : List EvT) (x : SysQ),
+    GuardT cfg cr x (l₁ ++ l₂) ↔ GuardT cfg cr x l₁ ∧ GuardT cfg cr (runT cfg cr x l₁) l₂ := by
+  intro l₁
+  induction l₁ with
+  | nil => intro l₂ x; exact ⟨fun h => ⟨trivial, h⟩, fun h => h.2⟩
+  | cons e l ih =>
+    intro l₂ x
+    show guardEv cfg x e ∧ GuardT cfg cr (stepT cfg cr x e) (l ++ l₂) ↔
+      (guardEv cfg x e ∧ GuardT cfg cr (stepT cfg cr x e) l) ∧ GuardT cfg cr (runT cfg cr (stepT cfg cr x e) l) l₂
+    rw [ih l₂ (stepT cfg cr x e)]
+    exact ⟨fun h => ⟨⟨h.1, h.2.1⟩, h.2.2⟩, fun h => ⟨h.1.1, h.1.2, h.2⟩⟩
+
+-- ------------------------------------------------------------------ quiet points inside an open window
+
+/-- no task is pending in this state: the wallet of the open window (if any) is finished according to the STORE -/
+def IdleAt (x : SysQ) : Option Task → Prop
+  | none => True
+  | some (.imp w) => importDone x.P w = true
+  | some (.rem w) => removeDone x.P w = true
+
+/-- the skeleton with the window closed -/
+def closedBase (k : SkelT) : Skel :=
+  match k.busy with
+  | some (.rem w) => { k.base with ks := AMap.erase k.base.ks w }
+  | _ => k.base
+
+/-- nothing queued, no task pending (window closed or not): round 3's invariant holds -/
+theorem phase_idle_JQ {cfg : Cfg} {G : Block} {x : SysQ} {k : SkelT} (hph : Phase cfg G x k) (hq : x.queue = [])
+    (hidle : IdleAt x k.busy) : JQ cfg.st G x (closedBase k) := by
+  unfold Phase at hph
+  unfold closedBase
+  cases hb : k.busy with
+  | none => rw [hb] at hph; exact hph
+  | some t =>
+    cases t with
+    | imp w =>
+      rw [hb] at hph hidle
+      exact JI_done_JQ hph hq hidle
+    | rem w =>
+      rw [hb] at hph hidle
+      rcases hph with hM | hD
+      · obtain ⟨stt, hst, _⟩ := hM.flagged
+        have : removeDone x.P w = true := hidle
+        unfold removeDone at this; rw [hst] at this; cases this
+      · exact hD.jq
+
+/-- CRASH_EQUIV_TASKS at ANY quiet point — also inside a task window that the history has not closed: whenever the run
+    that never stops has nothing queued and in BOTH runs the wallet of the open window is finished according to the
+    store (no task pending), the two runs agree on everything confirmed.  (That the crashing run is finished when the
+    other one is cannot be concluded: at the same event index the two may be at different points of the rescan.) -/
+theorem crash_equiv_tasks_quiet {cfg : Cfg} {G : Block} (E : StaticOK cfg.st G) (hG : G.txs = []) (hb : cfg.batch > 0)
+    (hl : cfg.limit > 0) (evs : List EvT) (x0 : SysQ) (k0 : SkelT) (hJ : JT cfg G x0 k0) (hR : RunOKT cfg G k0 evs)
+    (hg1 : GuardT cfg true x0 evs) (hg2 : GuardT cfg false x0 evs)
+    (hidle1 : IdleAt (runT cfg true x0 evs) (skRunT cfg k0 evs).busy)
+    (hidle2 : IdleAt (runT cfg false x0 evs) (skRunT cfg k0 evs).busy)
+    (hq : (runT cfg false x0 evs).queue = []) :
+    (runT cfg true x0 evs).queue = [] ∧
+    (runT cfg true x0 evs).chain = (runT cfg false x0 evs).chain ∧
+    (runT cfg true x0 evs).P.ks = (runT cfg false x0 evs).P.ks ∧
+    (runT cfg true x0 evs).V.keys = (runT cfg false x0 evs).V.keys ∧
+    AMap.Equiv (runT cfg true x0 evs).P.led.credits (runT cfg false x0 evs).P.led.credits ∧
+    AMap.Equiv (runT cfg true x0 evs).P.led.unspent (runT cfg false x0 evs).P.led.unspent ∧
+    AMap.Equiv (runT cfg true x0 evs).P.led.debits (runT cfg false x0 evs).P.led.debits ∧
+    AMap.Equiv (runT cfg true x0 evs).P.led.game (runT cfg false x0 evs).P.led.game ∧
+    AMap.Equiv (runT cfg true x0 evs).P.led.txrecs (runT cfg false x0 evs).P.led.txrecs ∧
+    AMap.Equiv (runT cfg true x0 evs).P.led.blocks (runT cfg false x0 evs).P.led.blocks ∧
+    AMap.Equiv (runT cfg true x0 evs).P.led.sync (runT cfg false x0 evs).P.led.sync ∧
+    (runT cfg true x0 evs).P.led.syncedTo = (runT cfg false x0 evs).P.led.syncedTo ∧
+    (runT cfg true x0 evs).V.led.best = (runT cfg false x0 evs).V.led.best ∧
+    (∀ w ∈ walletsOf (runT cfg false x0 evs).P.ks,
+      AMap.get (runT cfg true x0 evs).P.led.balance w = AMap.get (runT cfg false x0 evs).P.led.balance w ∧
+      readyB (runT cfg true x0 evs).P.led w = true ∧ readyB (runT cfg false x0 evs).P.led w = true) := by
+  have hqC : (runT cfg true x0 evs).queue = [] := by
+    have := queue_suffixT cfg evs x0 x0 (List.suffix_refl _)
+    rw [hq] at this
+    exact List.suffix_nil.1 this
+  have h1 := phase_idle_JQ (JT_run E hG hb hl true evs x0 k0 hJ hR hg1).phase hqC hidle1
+  have h2 := phase_idle_JQ (JT_run E hG hb hl false evs x0 k0 hJ hR hg2).phase hq hidle2
+  exact ⟨hqC, quiet_agree h1 h2 hqC hq⟩
+
 /-- a crash DURING Start inside an import window: every intermediate state of Start (`SInvJ`) is a state from which
     boot + Start succeed and reach the node's whole chain -/
 theorem crash_during_start_ij {st : Static} {G : Block} (E : StaticOK st G) {ks : AMap.T Wid KsRec}
